@@ -524,56 +524,72 @@ example : findDeclared (ofS "<html><head><title>charset and meta, but no tag</ti
 
 /-! #### well-formed declarations inside the window are found -/
 
-/-- `<?xml … encoding="NAME"?>` at the start (after optional white space), within the first 1024
-    bytes, the line ending right after it or continuing without `=`: the declared encoding is NAME,
-    lower-cased — for XML and for HTML documents alike. -/
-theorem declared_of_wellformed_xml (ws pre name restLine tail : Bytes) (q1 q2 : Nat) (isHtml : Bool)
+/-- `<?xml … encoding="NAME" …?>` at the start (after optional white space) and within the first
+    1024 bytes: NAME is quote-free, the rest of the line (`after`: e.g. `?>`, ` standalone="yes"?>`,
+    `?><html lang="en">`) contains `?>` and no further `encoding=`, and the line ends with the input or
+    a newline. The declared encoding is NAME lower-cased — for XML and HTML documents alike, by the
+    hand-written matcher AND by the regex mirror. -/
+theorem declared_of_wellformed_xml (ws pre name after tail : Bytes) (q1 q2 : Nat) (isHtml : Bool)
     (hws : ∀ c ∈ ws, isSpace c = true) (hpre : ∀ c ∈ pre, c ≠ 10)
     (hq1 : isQuote q1 = true) (hq2 : isQuote q2 = true) (hne : name ≠ [])
-    (hn : ∀ c ∈ name, isQuote c = false ∧ c ≠ 61 ∧ c ≠ 10)
-    (hr : ∀ c ∈ restLine, c ≠ 61 ∧ c ≠ 10)
+    (hn : ∀ c ∈ name, isQuote c = false ∧ c ≠ 10)
+    (ha : ∀ c ∈ after, c ≠ 10) (hqm : containsQmGt after = true)
+    (hno : containsCI litEncodingEq (name ++ q2 :: after) = false)
     (ht : tail = [] ∨ ∃ r, tail = 10 :: r)
-    (hlen : (ws ++ 60 :: 63 :: (pre ++ (litEncodingEq ++ q1 :: (name ++ q2 :: 63 :: 62 :: restLine)))).length ≤ 1024) :
-    findDeclared (ws ++ 60 :: 63 :: (pre ++ (litEncodingEq ++ q1 :: (name ++ q2 :: 63 :: 62 :: restLine))) ++ tail) isHtml
+    (hlen : (ws ++ 60 :: 63 :: (pre ++ (litEncodingEq ++ q1 :: (name ++ q2 :: after)))).length ≤ 1024) :
+    findDeclared (ws ++ 60 :: 63 :: (pre ++ (litEncodingEq ++ q1 :: (name ++ q2 :: after))) ++ tail) isHtml
+      = some (lower (asciiReplace name)) ∧
+    Rx.findDeclaredRx false (ws ++ 60 :: 63 :: (pre ++ (litEncodingEq ++ q1 :: (name ++ q2 :: after))) ++ tail) isHtml false
       = some (lower (asciiReplace name)) := by
   have hne' : name.isEmpty = false := by cases name <;> simp_all
-  unfold findDeclared
-  rw [xmlMatch_decl ws pre name restLine tail q1 q2 hws hpre hq1 hq2 hn hr ht hlen]
-  simp [hne']
+  have h : findDeclared (ws ++ 60 :: 63 :: (pre ++ (litEncodingEq ++ q1 :: (name ++ q2 :: after))) ++ tail) isHtml
+      = some (lower (asciiReplace name)) := by
+    unfold findDeclared
+    rw [xmlMatch_decl_gen ws pre name after tail q1 q2 hws hpre hq1 hq2 hn ha hqm hno ht hlen]
+    simp [hne']
+  exact ⟨h, by rw [declared_regex_refinement]; exact h⟩
 
 example : findDeclared (ofS "<?xml version=\"1.0\" encoding=\"KOI8-R\"?>\n<a/>") false = some (ofS "koi8-r") := by decide
 
-/-- `<meta … charset=NAME…>` (covers `<meta charset="NAME">`, unquoted, `/>`-closed, and
-    `<meta http-equiv=… content="text/html; charset=NAME">`): no XML declaration in front, every
-    earlier `<` opens something that is visibly not `<meta`, the tag lies within the first 2048 bytes,
-    NAME has no closing-class character / white space / `=`, and nothing with `=` follows before `>`. -/
+/-- `<meta … charset=NAME…>`: covers `<meta charset="NAME">`, unquoted, `/>`-closed,
+    `<meta http-equiv=… content="text/html; charset=NAME">`, and further attributes after the value
+    (`<meta charset="NAME" id="x">`). Hypotheses: no XML declaration in front; every earlier `<` opens
+    something that is visibly not `<meta`; the tag (through its `>`) lies within the first 2048 bytes;
+    NAME has no closing-class character and no white space; what follows the value up to `>` starts
+    with a closing-class character and does not contain `charset` again. -/
 theorem declared_of_wellformed_meta (pre mid qs name close rest : Bytes) (m0 : Nat)
     (hxml : xmlMatch (pre ++ 60 :: (litMeta ++ m0 :: (mid ++ (litCharset ++ 61 :: (qs ++ (name ++ (close ++ [62])))))) ++ rest) = none)
     (hpre : tagsNotMeta pre = true)
     (hm0 : m0 ≠ 62) (hmid : ∀ c ∈ mid, c ≠ 62)
     (hqs : qs = [] ∨ ∃ q, qs = [q] ∧ isQuote q = true) (hne : name ≠ [])
-    (hn : ∀ c ∈ name, isTerm c = false ∧ isSpace c = false ∧ c ≠ 61)
-    (hclose : ∀ c ∈ close, c ≠ 61 ∧ c ≠ 62)
+    (hn : ∀ c ∈ name, isTerm c = false ∧ isSpace c = false)
+    (hclose : ∀ c ∈ close, c ≠ 62)
+    (hno : containsCI litCharset (qs ++ name ++ close) = false)
     (hterm : close = [] ∨ ∃ t r, close = t :: r ∧ isTerm t = true)
     (hlen : (pre ++ 60 :: (litMeta ++ m0 :: (mid ++ (litCharset ++ 61 :: (qs ++ (name ++ (close ++ [62]))))))).length ≤ 2048) :
     findDeclared (pre ++ 60 :: (litMeta ++ m0 :: (mid ++ (litCharset ++ 61 :: (qs ++ (name ++ (close ++ [62])))))) ++ rest) true
+      = some (lower (asciiReplace name)) ∧
+    Rx.findDeclaredRx false (pre ++ 60 :: (litMeta ++ m0 :: (mid ++ (litCharset ++ 61 :: (qs ++ (name ++ (close ++ [62])))))) ++ rest) true false
       = some (lower (asciiReplace name)) := by
   have hne' : name.isEmpty = false := by cases name <;> simp_all
-  unfold findDeclared
-  rw [hxml]
-  simp only [if_true]
-  have hle : (pre ++ 60 :: (litMeta ++ m0 :: (mid ++ (litCharset ++ 61 :: (qs ++ (name ++ (close ++ [62]))))))).length
-      ≤ max 2048 ((pre ++ 60 :: (litMeta ++ m0 :: (mid ++ (litCharset ++ 61 :: (qs ++ (name ++ (close ++ [62])))))) ++ rest).length / 20) :=
-    Nat.le_trans hlen (Nat.le_max_left _ _)
-  rw [take_append_le _ _ _ hle]
-  generalize rest.take _ = rest'
-  have hre : pre ++ 60 :: (litMeta ++ m0 :: (mid ++ (litCharset ++ 61 :: (qs ++ (name ++ (close ++ [62])))))) ++ rest'
-      = pre ++ 60 :: (litMeta ++ m0 :: (mid ++ (litCharset ++ 61 :: (qs ++ (name ++ (close ++ 62 :: rest')))))) := by
-    simp [List.append_assoc]
-  rw [hre, htmlSearch_skip pre _ hpre, htmlSearch]
-  simp only [beq_self_eq_true, if_true]
-  rw [metaAt_decl m0 mid qs name close rest' hm0 hmid hqs hne hn hclose hterm]
-  simp [hne']
+  have h : findDeclared (pre ++ 60 :: (litMeta ++ m0 :: (mid ++ (litCharset ++ 61 :: (qs ++ (name ++ (close ++ [62])))))) ++ rest) true
+      = some (lower (asciiReplace name)) := by
+    unfold findDeclared
+    rw [hxml]
+    simp only [if_true]
+    have hle : (pre ++ 60 :: (litMeta ++ m0 :: (mid ++ (litCharset ++ 61 :: (qs ++ (name ++ (close ++ [62]))))))).length
+        ≤ max 2048 ((pre ++ 60 :: (litMeta ++ m0 :: (mid ++ (litCharset ++ 61 :: (qs ++ (name ++ (close ++ [62])))))) ++ rest).length / 20) :=
+      Nat.le_trans hlen (Nat.le_max_left _ _)
+    rw [take_append_le _ _ _ hle]
+    generalize rest.take _ = rest'
+    have hre : pre ++ 60 :: (litMeta ++ m0 :: (mid ++ (litCharset ++ 61 :: (qs ++ (name ++ (close ++ [62])))))) ++ rest'
+        = pre ++ 60 :: (litMeta ++ m0 :: (mid ++ (litCharset ++ 61 :: (qs ++ (name ++ (close ++ 62 :: rest')))))) := by
+      simp [List.append_assoc]
+    rw [hre, htmlSearch_skip pre _ hpre, htmlSearch]
+    simp only [beq_self_eq_true, if_true]
+    rw [metaAt_decl_gen m0 mid qs name close rest' hm0 hmid hqs hne hn hclose hno hterm]
+    simp [hne']
+  exact ⟨h, by rw [declared_regex_refinement]; exact h⟩
 
 example : findDeclared (ofS "<html><head><meta http-equiv=\"Content-Type\" content=\"text/html; charset=Shift_JIS\"></head>") true
     = some (ofS "shift_jis") := by decide
@@ -588,6 +604,81 @@ theorem declared_html_encoding_of_meta (C : Codecs) (a : Args) (doc name : Bytes
     (dammit C a (.bytes doc)).declaredHtml = some (lower (asciiReplace name)) := by
   rw [declared_reported, ha, hbom]
   simpa using hd
+
+/-- utf-8 and ascii exist and decode (strictly) exactly the 7-bit strings -/
+def toy : Codecs where
+  codecExists n := n == utf8 || n == ascii
+  decodeStrict n b := if (n == utf8 || n == ascii) && b.all (· < 128) then some b else none
+  decodeReplace n b := if n == utf8 || n == ascii then some (b.map fun c => if c < 128 then c else 0xFFFD) else none
+
+/-! ## find_codec -/
+
+/-- Over the whole generated alias table: no key and no target is empty, and every entry is lower-case. -/
+theorem alias_table_well_formed :
+    Gen.charsetAliases.all (fun kv => !kv.1.isEmpty && !kv.2.isEmpty && lower kv.1 == kv.1 && lower kv.2 == kv.2) = true := by
+  decide +kernel
+
+/-- `find_codec` spelled out: the first of (alias, dashes removed, dashes as underscores) that is a
+    non-empty name `codecs.lookup` knows — else the name itself; always lower-cased. -/
+theorem findCodec_spec (C : Codecs) (c : Name) (hc : c ≠ []) :
+    findCodec C c = some (lower (([aliasOf c, replaceDash [] c, replaceDash [95] c].find?
+      (fun v => !v.isEmpty && C.codecExists v)).getD c)) := by
+  have hne : c.isEmpty = false := by cases c <;> simp_all
+  have hcodec : ∀ v, codec C v = if (!v.isEmpty && C.codecExists v) = true then some v else none := by
+    intro v
+    unfold codec
+    cases v.isEmpty <;> cases C.codecExists v <;> rfl
+  unfold findCodec
+  simp only [hcodec, List.find?_cons, List.find?_nil, hne, Bool.false_eq_true, if_false]
+  by_cases h1 : (!(aliasOf c).isEmpty && C.codecExists (aliasOf c)) = true
+  · simp only [h1, if_true, Option.getD_some]
+  · simp only [h1, Bool.false_eq_true, if_false]
+    by_cases h2 : (!(replaceDash [] c).isEmpty && C.codecExists (replaceDash [] c)) = true
+    · simp only [h2, if_true, Option.getD_some]
+    · simp only [h2, Bool.false_eq_true, if_false]
+      by_cases h3 : (!(replaceDash [95] c).isEmpty && C.codecExists (replaceDash [95] c)) = true
+      · simp only [h3, if_true, Option.getD_some]
+      · simp only [h3, Bool.false_eq_true, if_false, Option.getD_none, lower_idem]
+
+/-- Only the empty name has no codec name; every answer is lower-case (so `original_encoding` is). -/
+theorem findCodec_none_iff_empty (C : Codecs) (c : Name) :
+    (findCodec C c = none ↔ c = []) ∧ ∀ r, findCodec C c = some r → lower r = r := by
+  constructor
+  · constructor
+    · intro h
+      cases c with
+      | nil => rfl
+      | cons x t => rw [findCodec_spec C (x :: t) (by simp)] at h; cases h
+    · intro h
+      subst h
+      have : aliasOf [] = [] := by decide +kernel
+      simp [findCodec, codec, this]
+  · intro r h
+    cases c with
+    | nil =>
+      have : aliasOf [] = [] := by decide +kernel
+      simp [findCodec, codec, this] at h
+    | cons x t =>
+      rw [findCodec_spec C (x :: t) (by simp)] at h
+      cases h
+      exact lower_idem _
+
+example : findCodec toy (ofS "UTF-8") = some utf8 ∧ findCodec toy (ofS "u-t-f-8") = some (ofS "u-t-f-8") ∧
+    findCodec ⟨fun n => n == ofS "utf8", fun _ _ => none, fun _ _ => none, fun _ => none⟩ (ofS "UTF-8") = some (ofS "utf-8") ∧
+    findCodec ⟨fun n => n == ofS "utf8", fun _ _ => none, fun _ _ => none, fun _ => none⟩ (ofS "ut-f8") = some (ofS "utf8") := by decide +kernel
+
+/-! ## EncodingDetector on a str -/
+
+/-- `EncodingDetector(str, …).encodings` is the documented list with no BOM step and no chardet step,
+    the declaration being looked for by the str flavour of the patterns. -/
+theorem encodings_str_eq_candidates (a : Args) (s : PStr) :
+    Rx.detectorEncodingsStr a s =
+      candidates (a.known ++ a.override) none a.user (Rx.findDeclaredRx true s a.isHtml) none (exclSet a) := by
+  unfold Rx.detectorEncodingsStr detectorEncodings
+  exact encodings_eq_candidates _ _ _ _ _ _
+
+example : Rx.detectorEncodingsStr { isHtml := true } (ofS "<meta char" ++ [0x17F] ++ ofS "et=KOI8-R>") = [ofS "koi8-r", utf8, windows1252] := by
+  decide +kernel
 
 /-! ## UnicodeDammit always produces text (for lawful codecs), and where the result comes from -/
 
@@ -736,11 +827,7 @@ theorem result_comes_from_a_candidate (C : Codecs) (a : Args) (b : Bytes) (hb : 
 
 /-! ## non-vacuity: a toy codec oracle and instances of the hypotheses above -/
 
-/-- utf-8 and ascii exist and decode (strictly) exactly the 7-bit strings -/
-def toy : Codecs where
-  codecExists n := n == utf8 || n == ascii
-  decodeStrict n b := if (n == utf8 || n == ascii) && b.all (· < 128) then some b else none
-  decodeReplace n b := if n == utf8 || n == ascii then some (b.map fun c => if c < 128 then c else 0xFFFD) else none
+
 
 -- clean: first candidate wins, no flag
 example : ((dammit toy {} (.bytes [65])).text, (dammit toy {} (.bytes [65])).originalEncoding,
@@ -760,17 +847,20 @@ example : True := by
   have := utf8_default toy {} [65] [65] (by decide) rfl rfl rfl (by decide) (by decide) rfl (by decide) (by decide) (by decide)
   have := from_encoding_first toy [65] (ofS "ASCII") ascii [65] [] (by decide) (by decide) (by decide) (by decide) (by decide)
   trivial
--- … and those of the two declaration theorems
+-- … and those of the two declaration theorems (realistic declarations with further attributes / pseudo-attributes)
 example : True := by
-  have := declared_of_wellformed_meta (ofS "<html><head>") [] [34] (ofS "utf-8") [34] (ofS "</head>") 32
-    (by decide) (by decide) (by decide) (by decide) (Or.inr ⟨34, rfl, by decide⟩) (by decide) (by decide) (by decide)
-    (Or.inr ⟨34, [], rfl, by decide⟩) (by decide)
+  -- <html><head><meta charset="utf-8" id="m"></head>
+  have := declared_of_wellformed_meta (ofS "<html><head>") [] [34] (ofS "utf-8") (ofS "\" id=\"m\"") (ofS "</head>") 32
+    (by decide) (by decide) (by decide) (by decide) (Or.inr ⟨34, rfl, by decide⟩) (by decide) (by decide) (by decide) (by decide)
+    (Or.inr ⟨34, _, rfl, by decide⟩) (by decide)
+  -- <!DOCTYPE html>\n<head><title>t</title><meta http-equiv="Content-Type" content="text/html; charset=KOI8-R"></head>
   have := declared_of_wellformed_meta (ofS "<!DOCTYPE html>\n<head><title>t</title>") (ofS "http-equiv=\"Content-Type\" content=\"text/html; ")
     [] (ofS "KOI8-R") [34] (ofS "</head>") 32
-    (by decide) (by decide) (by decide) (by decide) (Or.inl rfl) (by decide) (by decide) (by decide)
+    (by decide) (by decide) (by decide) (by decide) (Or.inl rfl) (by decide) (by decide) (by decide) (by decide)
     (Or.inr ⟨34, [], rfl, by decide⟩) (by decide)
-  have := declared_of_wellformed_xml [10, 32] (ofS "xml version=\"1.0\" ") (ofS "Big5") (ofS " ") (ofS "\n<a/>") 34 34 false
-    (by decide) (by decide) (by decide) (by decide) (by decide) (by decide) (by decide) (Or.inr ⟨_, rfl⟩) (by decide)
+  -- \n <?xml version="1.0" encoding="Big5" standalone="yes"?><a lang="en">\n<b/>
+  have := declared_of_wellformed_xml [10, 32] (ofS "xml version=\"1.0\" ") (ofS "Big5") (ofS " standalone=\"yes\"?><a lang=\"en\">") (ofS "\n<b/>") 34 34 false
+    (by decide) (by decide) (by decide) (by decide) (by decide) (by decide) (by decide) (by decide) (by decide) (Or.inr ⟨_, rfl⟩) (by decide)
   trivial
 
 /-- a lawful toy: utf-8, windows-1252 and ascii in any case; strict decoding accepts 7-bit strings only -/
